@@ -116,6 +116,8 @@ func checkC06(c *Ctx) {
 	poolResetRule(c, "R-pool-reset") // one peer's truncated input must not be what the next request is parsed from
 	c06IndexGuard(c, fns, "R-index-guard")
 	c06NilMapWrite(c)
+	c06DeliverNonNil(c)
+	c06DisconnectObserved(c)
 	// a lock shared by all sessions held across a write that the peer paces stalls every other client
 	if _, guard := streamTableAndGuard(c); guard != "" {
 		streamWriteNotUnder(c, "R-table-lock-free-write", guard, "listening-stream table")
@@ -1007,5 +1009,184 @@ func c06NilMapWrite(c *Ctx) {
 	c.R.Min("R-nil-map-write", 10)
 	if n == 0 {
 		c.R.Break("R-nil-map-write: no map update found on the server side")
+	}
+}
+
+// ---------------------------------------------------------------- R-deliver-nonnil
+// What a peer's message makes the server hand to a goroutine waiting for an answer is dereferenced there
+// (`json.Unmarshal(*response, …)`). A pointer delivered on such a channel (chan *json.RawMessage) must therefore be
+// non-nil whatever the peer sent: the address of a local, or a value whose nil-ness was tested — not the result of a
+// helper that returns nil for an answer with neither result nor error.
+func c06DeliverNonNil(c *Ctx) {
+	var mayBeNil func(fn *ssa.Function, v ssa.Value, at ssa.Instruction, d int, seen map[ssa.Value]bool) string
+	mayBeNil = func(fn *ssa.Function, v ssa.Value, at ssa.Instruction, d int, seen map[ssa.Value]bool) string {
+		if v == nil || d > 5 || seen[v] {
+			return ""
+		}
+		seen[v] = true
+		if at != nil {
+			for _, g := range flow.Guards(fn, at.Block()) {
+				if x, op, ok := nilCompare(g.If.Cond); ok && (x == v || sameValue(x, v)) {
+					if (op == token.NEQ && g.Branch) || (op == token.EQL && !g.Branch) {
+						return ""
+					}
+				}
+			}
+		}
+		switch x := v.(type) {
+		case *ssa.Const:
+			if x.IsNil() {
+				return "nil"
+			}
+		case *ssa.Alloc:
+			return ""
+		case *ssa.Phi:
+			for _, e := range x.Edges {
+				if w := mayBeNil(fn, e, nil, d+1, seen); w != "" {
+					return w
+				}
+			}
+		case *ssa.Extract:
+			return mayBeNil(fn, x.Tuple, at, d+1, seen)
+		case *ssa.UnOp:
+			if u := unspill(x); u != ssa.Value(x) {
+				return mayBeNil(fn, u, at, d+1, seen)
+			}
+		case *ssa.Call:
+			sc := ir.StaticCallee(x)
+			if sc == nil || !c.P.IsLib(sc) || sc.Blocks == nil {
+				return ""
+			}
+			for _, b := range sc.Blocks {
+				ret, ok := b.Instrs[len(b.Instrs)-1].(*ssa.Return)
+				if !ok || b == sc.Recover || len(ret.Results) == 0 {
+					continue
+				}
+				rs := ir.Results(ret)
+				// a nil pointer returned together with a non-nil error is the failure exit; (nil, nil) is not
+				if len(rs) == 2 && ir.TypeStr(rs[1].Type()) == "error" && !ir.IsNilConst(rs[1]) {
+					continue
+				}
+				if w := mayBeNil(sc, rs[0], ret, d+1, seen); w != "" {
+					return "the result of " + fname(sc) + ", which can return nil without an error"
+				}
+			}
+		case *ssa.Parameter:
+			idx := -1
+			for i, q := range fn.Params {
+				if q == x {
+					idx = i
+				}
+			}
+			for _, e := range ir.Callers(c.G, fn) {
+				if e.Site == nil || !c.P.IsLib(e.Caller.Func) || clientSide(c, e.Caller.Func) {
+					continue
+				}
+				cc := e.Site.Common()
+				ai := idx
+				if cc.IsInvoke() {
+					ai--
+				}
+				if ai >= 0 && ai < len(cc.Args) {
+					if w := mayBeNil(e.Caller.Func, cc.Args[ai], e.Site, d+1, seen); w != "" {
+						return w + " (handed in by " + fname(e.Caller.Func) + ")"
+					}
+				}
+			}
+		}
+		return ""
+	}
+	n := 0
+	for _, fn := range c.P.LibFns {
+		if clientSide(c, fn) {
+			continue
+		}
+		ir.EachInstr(fn, func(_ *ssa.BasicBlock, _ int, in ssa.Instruction) {
+			var sent []ssa.Value
+			switch x := in.(type) {
+			case *ssa.Send:
+				sent = append(sent, x.X)
+			case *ssa.Select:
+				for _, st := range x.States {
+					if st.Dir == types.SendOnly {
+						sent = append(sent, st.Send)
+					}
+				}
+			}
+			for _, v := range sent {
+				if ir.TypeStr(v.Type()) != "*encoding/json.RawMessage" {
+					continue
+				}
+				n++
+				why := mayBeNil(fn, v, in, 0, map[ssa.Value]bool{})
+				c.R.Check(why == "", "R-deliver-nonnil", sprintf("answer delivered by %s", fname(fn)), c.Pos(in.Pos()), "the delivered pointer cannot be nil",
+					sprintf("%s delivers to a waiting goroutine a *json.RawMessage that may be %s: the waiter dereferences it, and a nil-pointer panic in a request goroutine of the stdio or legacy SSE server ends the process — a peer answering a server request with neither result nor error is enough", fname(fn), why))
+			}
+		})
+	}
+	if n < 2 {
+		c.R.Break("R-deliver-nonnil: only %d deliveries of an answer pointer found on the server side", n)
+	}
+}
+
+// ---------------------------------------------------------------- R-disconnect-observed
+// A handler that keeps a connection open waits for its end; the peer going away ends the REQUEST's context. The wait
+// of an HTTP handler (a receive or blocking select on some context's Done() in a function that has the *http.Request)
+// must therefore include the Done() of a context that is r.Context() or derived from it by library code alone. A
+// context that a user-supplied function returned need not be a child of the request's context: waiting only on that
+// leaves the handler, its writer goroutines and the session behind after every disconnect.
+func c06DisconnectObserved(c *Ctx) {
+	w := &ctxWalker{c: c, strict: true, pass: func(call *ssa.Call) bool { return ir.CallName(call) == "(*net/http.Request).Context" }}
+	n := 0
+	for _, fn := range c.P.LibFns {
+		if clientSide(c, fn) {
+			continue
+		}
+		hasReq := false
+		for _, p := range fn.Params {
+			if ir.TypeStr(p.Type()) == "*net/http.Request" {
+				hasReq = true
+			}
+		}
+		if !hasReq {
+			continue
+		}
+		ir.EachInstr(fn, func(_ *ssa.BasicBlock, _ int, in ssa.Instruction) {
+			var dones []ssa.Value
+			switch x := in.(type) {
+			case *ssa.UnOp:
+				if x.Op == token.ARROW {
+					if oc := originCall(x.X); oc != nil && ir.CallName(oc) == "(context.Context).Done" {
+						dones = append(dones, oc.Call.Value)
+					}
+				}
+			case *ssa.Select:
+				if !x.Blocking {
+					return
+				}
+				for _, st := range x.States {
+					if oc := originCall(st.Chan); oc != nil && ir.CallName(oc) == "(context.Context).Done" {
+						dones = append(dones, oc.Call.Value)
+					}
+				}
+			}
+			if len(dones) == 0 {
+				return
+			}
+			n++
+			ok, why := false, ""
+			for _, d := range dones {
+				if good, wy := w.descends(fn, d, 0, map[ctxKey]bool{}); good {
+					ok = true
+				} else {
+					why = wy
+				}
+			}
+			c.R.Check(ok, "R-disconnect-observed", sprintf("wait of the handler %s", fname(fn)), c.Pos(in.Pos()), "one arm is the Done() of the request's own context (or of a library-made child of it)",
+				sprintf("%s waits for the end of its connection only on contexts that are not known to end with the request (%s): when the peer disconnects the handler stays blocked, and the goroutines and the session it owns are never released", fname(fn), why))
+		})
+	}
+	if n < 2 {
+		c.R.Break("R-disconnect-observed: only %d waits on a context found in HTTP handlers", n)
 	}
 }
